@@ -19,7 +19,7 @@ CFG = {
             "connections, an id the server handed out earlier, a client-chosen new UUID, upper-case / braced / urn / "
             "unhyphenated spellings, non-UUID text, the empty value, the header twice): the response's id must differ "
             "from every client-sent value in any spelling; unique: all ids of the batch as sorted 128-bit numbers, "
-            "strictly increasing, one per request and disjoint from every client-supplied UUID. Non-trivial: every case; distinct by case content."
+            "strictly increasing, one per request and disjoint from every client-supplied UUID. live-methods: one live request in six uses GET/HEAD/OPTIONS/PATCH/DELETE/PURGE (HEAD and OPTIONS half of them) against an endpoint registered for all six whose handler returns an HttpError with attached headers (one; several; three values under one name; set-cookie three times plus vary twice; none - built with add_header and with_header alternately, names in mixed case), against a path that does not exist (404) and against a path that does not serve the method (405: Allow must be there, for HEAD too); for HEAD only the head is read; judged: status, one fresh UUID x-request-id equal to the x-handler-saw the handler attached, EVERY attached header with all its values, content-type application/json and content-length = the length of the body the error has for a non-HEAD request (hyper sends both for HEAD, without the body), the parsed body for the other methods, and the whole header set against the model. Non-trivial: every case; distinct by case content."
             " Large-scope slice (group large, tags large:<dimension>:<n>): length of the external message, of the internal message (marker + filler, both searched for in every response byte), of error_code, of the single message of for_client_error/for_bad_request, of one attached header value and of the request id pushed across 15/16/17, 31..33, 63..65, 127..129, 255..257, 1023..1025, 4095..4097, 8191..8193, 65535..65537 (thorough also 1 MiB-1/+0/+1), with 2/3/4-byte characters straddling 255|256, 4095|4096 and 65535|65536; number of headers attached with add_header/with_header (distinct names: every round number up to 257 plus 1024 in quick, up to 1025 plus 4096 in thorough - the model's header map is an association list, Coq time quadratic) and of values under one name (to 1025, thorough 8193); the live batch puts 1100 (thorough 65540) requests on one keep-alive connection and has 3002 (thorough 67040 > 65537) ids in total for the uniqueness check. Same judge, model and spec as the ordinary cases. Long periodic strings are written in the Coq case as srep n unit (lossless); strings above 200000 bytes are replaced by a token (first/last 16 bytes, length, 64-bit FNV-1a hash, first illegal header byte if any) preserving every equality and legality test of the judge up to hash collision.",
     "exhaustive_note": "the status group enumerates all 65536 u16 values for the six status functions; "
                        "for_client_error_with_status / for_client_error are run on all 100 client statuses and struct "
